@@ -114,7 +114,21 @@ func (s *state) removeTorrent(h core.InfoHash, err error) {
 		if err := s.sched.torrentArchive.DeleteTorrent(ctrl.dispatcher.Digest()); err != nil {
 			s.sched.log().Errorf("Error deleting torrent from archive: %s", err)
 		}
+	} else {
+		// The torrent may have completed without its dispatcherCompleteEvent having been applied yet. That
+		// event will not find this control anymore, so pending download requests must be answered here
+		// (the blob is complete unless it is being removed manually), and the torrent must leave the
+		// announce queue.
+		s.announceQueue.Eject(h)
+		for _, errc := range ctrl.errors {
+			if err == ErrTorrentRemoved {
+				errc <- err
+			} else {
+				errc <- nil
+			}
+		}
 	}
+	ctrl.errors = nil
 	delete(s.torrentControls, h)
 }
 
